@@ -196,3 +196,9 @@ def run(ctx):
         except vlib.BuildError as e:
             ctx.broke("model build: " + str(e)[:300], str(e))
     full_stream(ctx, h)
+
+
+def setup_gen():
+    """called by setup.sh: write coq/Gen/C05_PrecTables.v before the full make"""
+    ctx = vlib.Ctx("C05", "quick", 1)
+    regen_tables(ctx, vlib.build_harness("c05"))
